@@ -51,7 +51,12 @@ def handle (j : Json) : Json :=
     let p := ((pj.getArr?.toOption.getD #[]).toList.filterMap (fun x => x.getStr?.toOption)).map String.toList
     Json.mkObj [("path", showPath p), ("linted", lintedExplicit rel pats p),
                 ("spec", !specExcluded p && !rel.any dirExcluded && !forms.any (fun f => f.specMatch (rel ++ p)))]
-  Json.mkObj [("patterns", J.ofStrs (pats.map String.ofList)), ("wf", forms.all Form.wf),
+  let targets : List Target := (J.arrD j "targets").toList.map fun tj =>
+    match tj.getObjVal? "file" with
+    | .ok fj => .file ((J.strsD tj "file").map String.toList)
+    | .error _ => .dir ((J.strsD tj "dir").map String.toList)
+  let multi := lintedTargets recursive pats t targets
+  Json.mkObj [("patterns", J.ofStrs (pats.map String.ofList)), ("wf", forms.all Form.wf), ("multi", J.ofStrs (multi.map showPath)),
     ("linted", J.ofStrs (lintedM.map showPath)), ("spec", J.ofStrs (specL.map showPath)),
     ("deviations", Json.arr devs.toArray), ("explicit", Json.arr explicit.toArray),
     ("universe", J.ofStrs (univ.map showPath))]
